@@ -19,7 +19,8 @@ REQUIRED = [f"contract:NonnegMean.{t}" for t in nn.TESTS] + ["stratum:len1", "st
                                                              "stratum:m_above_u", "stratum:m_below_0",
                                                              "random_order_false", "stratum:nondyadic_runs", "stratum:long_sample", "stratum:exact_hit_then_zero_then_nondyadic", "integer_dtype_samples", "object_warmed_up_with_another_N", "object_built_with_another_u",
             "object_used_on_another_sample_first", "calls_with_boundary_tolerances_passed_by_the_caller",
-            "single_precision_samples", "samples_with_negative_zero"]
+            "single_precision_samples", "samples_with_negative_zero", "random_order_false_given_as_numpy_bool_or_0",
+            "finite_N_given_as_a_numpy_integer"]
 ASSUMPTIONS = ["samples are numpy arrays of floats in [0,u] (dyadic in the boundary strata, runs of non-representable values in the nondyadic stratum); documented exclusions: finite-N SPRT with "
                "random_order=False (raises by design), Kaplan-Markov/Wald with finite N",
                "numpy/pandas are trusted"]
@@ -71,7 +72,9 @@ def _post(testname):
         elif p > 1:
             bad("p_above_1", {"p": p, "history": h})
         if not np.any(np.isnan(h)) and not math.isnan(p):
-            ro = getattr(self, "random_order", True)
+            # the flag as the CALLER gave it (the workload records it; under the repository's own suite: the object's)
+            ro = getattr(rec, "caller_random_order", None)
+            ro = getattr(self, "random_order", True) if ro is None else ro
             want = float(np.min(h)) if ro else float(h[-1])
             if not math.isclose(p, want, rel_tol=1e-12, abs_tol=0.0):
                 bad("overall_not_min" if ro else "overall_not_last", {"p": p, "expected": want, "history": h,
@@ -158,6 +161,10 @@ def run_case(case, rec):
         rec.count("object_used_on_another_sample_first")
     if cfg.get("float_dtype"):
         rec.count("single_precision_samples")
+    if cfg.get("flag_repr") and not cfg.get("random_order", True):
+        rec.count("random_order_false_given_as_numpy_bool_or_0")
+    if cfg.get("N_repr"):
+        rec.count("finite_N_given_as_a_numpy_integer")
     rec.count(f"combo:{nn.label(cfg)}")
     if any(m == 0 for m in mu):
         rec.count("regime:mu_exactly_0")
@@ -171,7 +178,9 @@ def run_case(case, rec):
         rec.count("regime:total_exceeds_Nt")
     obj = nn.build(cfg)
     with np.errstate(all="ignore"):
+        rec.caller_random_order = bool(cfg.get("random_order", True))
         tk = case.get("test_kwargs") or {}
         if tk:
             rec.count("calls_with_boundary_tolerances_passed_by_the_caller")
         rec.guard(f"c11.call:{nn.label(cfg)}", obj.test, nn.to_array(x, cfg), **tk)
+        rec.caller_random_order = None
